@@ -229,3 +229,13 @@ def run(ctx):
 def _loops(f, node):
     from sa.util import enclosing_loops
     return enclosing_loops(f, node)
+
+
+
+_run_before_iter_rule = run
+
+
+def run(ctx):
+    _run_before_iter_rule(ctx)
+    # ---- R9 bookkeeping containers are not resized while they are iterated ------------------------------------
+    shared.no_mutation_while_iterating(ctx, "R9", ("base_interpreter", "interpreter", "sync_interpreter", "task_manager"), lambda t: t.startswith('self._') and not any(k in t for k in ('actor', 'registry', '_system')))
